@@ -265,6 +265,20 @@ func (m *Manager) DeleteAllocation(fiveTuple *FiveTuple) {
 	m.deleteAllocation(fiveTuple, nil)
 }
 
+// DeleteAllocationOnSocket removes the allocation registered for the 5-tuple
+// if the client made it over turnSocket. It is for the teardown of a stream
+// connection, which may happen when the client has come back from the same
+// address and port and has made a new allocation over its new connection.
+func (m *Manager) DeleteAllocationOnSocket(fiveTuple *FiveTuple, turnSocket net.PacketConn) {
+	m.lock.RLock()
+	alloc := m.allocations[fiveTuple.Fingerprint()]
+	m.lock.RUnlock()
+
+	if alloc != nil && alloc.TurnSocket == turnSocket {
+		m.deleteAllocation(fiveTuple, alloc)
+	}
+}
+
 // deleteAllocation removes the allocation registered for the 5-tuple. When
 // only is set it does so only if that allocation is still the registered one:
 // an allocation's own goroutines (lifetime timer, relay socket readers) may
